@@ -12,7 +12,6 @@ import (
 	"encoding/json"
 	"fmt"
 	"os"
-	"regexp"
 	"strings"
 
 	"github.com/benhoyt/goawk/interp"
@@ -261,6 +260,10 @@ func features(cs *Case) map[string]bool {
 		if r.Pat == "r" {
 			f["range"] = true
 		}
+		if r.Raise != "" {
+			f["pattern-raises:"+r.Raise+"@"+r.Pat+r.RaiseAt] = true
+			f["ctl"] = true
+		}
 		if r.NoBody {
 			f["nobody"] = true
 		}
@@ -318,40 +321,6 @@ func hitCase(c *vh.Ctx, cs *Case, r result) {
 	}
 }
 
-// classify names the known-finding class whose predicate accepts this failing case, or "".
-//
-// Gc11-1: the run ended with the error "next" / "nextfile" and the program has a function containing that statement which is
-// called from a pattern (the text before the opening brace of a rule). Nothing else is accepted.
-func classify(cs *Case, what string) string {
-	if cs.Class != "raw" {
-		return ""
-	}
-	prog := vh.MustParse(cs.Awk)
-	res := vh.ExecProg(prog, &interp.Config{Stdin: strings.NewReader(joinRecs(cs.Stdin)), Args: append([]string(nil), cs.Args...), Argv0: "awk"})
-	if res.Err != "next" && res.Err != "nextfile" {
-		return ""
-	}
-	for _, m := range reFuncNext.FindAllStringSubmatch(cs.Awk, -1) {
-		name := m[1]
-		for _, line := range strings.Split(cs.Awk, "\n") {
-			pat := line
-			if strings.HasPrefix(strings.TrimSpace(line), "function") {
-				// the rules of the raw programs follow the function on the same line: skip to after its closing brace
-				if k := strings.Index(line, "} "); k >= 0 {
-					pat = line[k+2:]
-				} else {
-					continue
-				}
-			}
-			if k := strings.Index(pat, "{"); k >= 0 {
-				pat = pat[:k]
-			}
-			if strings.Contains(pat, name+"(") {
-				return "Gc11-1"
-			}
-		}
-	}
-	return ""
-}
-
-var reFuncNext = regexp.MustCompile(`function (\w+)\([^)]*\) \{[^}]*\bnext(file)?\b`)
+// classify names the known-finding class whose predicate accepts this failing case, or "". C11 has no recorded finding
+// (Gc11-1 is repaired: its three witnesses are plain regression cases of the corpus), so nothing is ever accepted.
+func classify(cs *Case, what string) string { return "" }
